@@ -106,6 +106,13 @@ Chain(d, i, m) == SetToSortSeq(ChainSet(d, i, m), <)
 
 \* ------------------------------------------------------------- contract
 
+\* minor = 0: the chunker works on a document whose headings it has to detect
+\* itself (PDF layout heuristics).  Which lines it takes for headings is not part
+\* of the property; what it does report must be true: every entry of the path is a
+\* heading of the document that does not come after the chunk's content.
+WeakPath(path, lastEl) ==
+    \A j \in 1..Len(path) : path[j] \in 1..Len(doc) /\ doc[path[j]].k = "H" /\ path[j] <= lastEl
+
 EmitOK(ch) ==
     /\ ch.k >= 1
     /\ ch.first = consumed + 1
@@ -116,7 +123,8 @@ EmitOK(ch) ==
            pgs == {doc[i].pg : i \in els}
        IN /\ ch.ps <= ch.pe
           /\ ch.ps >= SetMin(pgs) /\ ch.pe <= SetMax(pgs)
-          /\ \E i \in els : \E m \in {7, minor} : ch.path = Enclosing(doc, i, m)
+          /\ \/ \E i \in els : \E m \in {7, minor} : ch.path = Enclosing(doc, i, m)
+             \/ minor = 0 /\ WeakPath(ch.path, SetMax(els))
 
 Consume(ch) ==
     /\ consumed' = consumed + ch.k
